@@ -26,6 +26,7 @@ PT = {
                                '{ static constexpr auto origin() { return au::kelvins(300); } };', u=Fr(2), o=Fr(300)),
     'X5': dict(ty='VP_X5', inc='#include "au/units/kelvins.hh"\n//--\nstruct VP_X5 : decltype(au::Kelvins{} / au::mag<4>()) '
                                '{ static constexpr auto origin() { return (au::kelvins / au::mag<4>())(1001); } };', u=Fr(1, 4), o=Fr(1001, 4)),
+    'X9': dict(ty='VP_X9', inc='#include "au/units/kelvins.hh"\n//--\nstruct VP_X9 : au::Kelvins { static constexpr auto origin() { return au::kelvins(-5); } };', u=Fr(1), o=Fr(-5)),
     'cC': dict(ty='au::Centi<au::Celsius>', inc='#include "au/units/celsius.hh"\n//--\n#include "au/prefix.hh"', u=Fr(1, 100), o=Fr(27315, 100)),
     # three units whose origins need different granularities (1/10 K, none, 1/1000 K), with the lowest origin on the unit that sorts in the middle
     'X6': dict(ty='VP_X6', inc='#include "au/units/kelvins.hh"\n//--\nstruct VP_X6 : au::Kelvins '
@@ -277,4 +278,11 @@ def obligations(tier, seed):
     obs.append(Ob(id='C09.letter.F_mK_i32', prop='C09', group='C09.letter', prelude=prelude('F', 'mK'), wrappers=[w], inputs=[(ct, 'x')], body=body,
                   contract='forall int32 x with displacement 100x+45967 and true result in range: fahrenheit_pt(x).coerce_in(milli(kelvins_pt)) == trunc((x*%d + %d)/%d); no UB:*' % (A, B, Dn),
                   functions_under_contract=('au::QuantityPoint::coerce_in',)))
+    # ---- negative compile probes: programs the property says are REJECTED must be rejected by the library's own guard (supporting static facts, decided by the compilers)
+    NHDR = '#include "au/au.hh"\n#include "au/units/feet.hh"\n#include "au/units/inches.hh"\n#include "au/units/meters.hh"\n#include "au/units/seconds.hh"\n#include "au/units/hertz.hh"\n#include "au/units/percent.hh"\n#include "au/units/celsius.hh"\n#include "au/units/kelvins.hh"\nusing namespace au;\n'
+    for (nm_, expr_, rx_) in [('point-plus-point', 'celsius_pt(1) + celsius_pt(2)', 'no match for|invalid operands'), ('scalar-times-point', '2 * celsius_pt(1)', 'no match for|invalid operands'), ('point-times-scalar', 'celsius_pt(1) * 2', 'no match for|invalid operands'), ('point-compared-with-quantity', 'celsius_pt(1) < celsius_qty(2)', 'no match for|invalid operands'), ('point-minus-zero', 'celsius_pt(1) - ZERO', 'no match for|invalid operands|ambiguous')]:
+        obs.append(Ob(id='C09.static.rejects.' + nm_, prop='C09', group='C09.static', prelude='', wrappers=[], inputs=[], kind='S',
+                      body=NHDR + 'int main() { auto vf_x = ' + expr_ + '; (void)vf_x; }\n', dfcc=dict(expect='reject', match=rx_),
+                      contract='must not compile: `' + expr_ + '` (points do not add, scale or compare with quantities; diagnostic /' + rx_ + '/)',
+                      functions_under_contract=('compile-time guard',)))
     return obs
